@@ -17,8 +17,11 @@ Fields
 M = "src/db/cached_database/block_history_cache.rs"
 
 
-def T(cap=3, hcap=3, unwind=6, unwindset=None, timeout=300, stubbing=False):
-    return dict(cap=cap, hcap=hcap, unwind=unwind, unwindset=unwindset or {}, timeout=timeout, stubbing=stubbing)
+def T(cap=3, hcap=3, unwind=6, unwindset=None, timeout=300, stubbing=False, rcap=4, kmax=8, vmax=40):
+    """cap/hcap: capacity of the BTreeMap/HashMap models; rcap/kmax/vmax: rows per store and max key /
+    value bytes of the rocksdb model; unwind: harness-wide loop bound; unwindset: per-loop bounds."""
+    return dict(cap=cap, hcap=hcap, unwind=unwind, unwindset=unwindset or {}, timeout=timeout, stubbing=stubbing,
+                rcap=rcap, kmax=kmax, vmax=vmax)
 
 
 HIST = "db::cached_database::block_history_cache::verif_h::"
@@ -64,6 +67,88 @@ OBLIGATIONS = [
          bounds=f"value shape {sh.upper()} (S=Some,N=None), all blocks/values, 2-byte arbitrary tail",
          instantiation="BlockHistoryCacheData<u8>")
     for sh in ("s", "n", "sn", "ns", "ss")
+]
+
+TBL = "db::cached_database::block_cached_database::verif_t::"
+INST_T = "BlockCachedDatabase<u8, u8, BlockHistoryCacheData<u8>>"
+
+
+def _t(oid, h, props, what, bounds, q=None, th=None, **kw):
+    return dict(id=oid, engine="kani", harness=TBL + h, props=props,
+                tiers={k: v for k, v in (("quick", q), ("thorough", th)) if v is not None},
+                what=what, bounds=bounds, instantiation=INST_T, **kw)
+
+
+OBLIGATIONS += [
+    _t("T1", "t1_latest_merge", ["C03", "C13"], "latest(q) = cached latest if cached, else stored row, else None",
+       "one key, all combinations of cached / stored / persisted-history presence, all u8 keys and values",
+       q=T(unwind=10), th=T(unwind=10)),
+    _t("T2.cc", "t2_range_two_cached", ["C02", "C03", "C13", "C18"],
+       "get_range[s,e): exactly the in-range keys with a value, each once, ascending by key - for every hash-map iteration order",
+       "2 uncommitted keys, symbolic order variables, all s,e,k,v in u8", q=T(unwind=10, timeout=600), th=T(unwind=10, timeout=900)),
+    _t("T2.cs", "t2_range_cached_and_stored", ["C02", "C03", "C13", "C18"],
+       "get_range merges cache over disk (same key: cache wins), sorted, every order",
+       "1 cached + 1 stored row (same or different key)", q=T(unwind=10, timeout=600), th=T(unwind=10, timeout=900)),
+    _t("T2.ss", "t2_range_two_stored", ["C02", "C03", "C13", "C18"],
+       "get_range over committed rows only: exact and sorted, every order of the result map",
+       "2 stored rows", q=T(unwind=10, timeout=600), th=T(unwind=10, timeout=900)),
+    _t("T2.ccc", "t2_range_three_cached", ["C02", "C13", "C18"],
+       "get_range with 3 uncommitted keys: all 6 iteration orders", "3 cached keys with values",
+       th=T(unwind=10, timeout=1800)),
+    _t("T3.cc", "t3_all_two_cached", ["C03", "C13"], "all(): exactly the keys with a value, each once",
+       "2 cached keys, every order", q=T(unwind=10, timeout=600), th=T(unwind=10, timeout=900)),
+    _t("T3.cs", "t3_all_cached_and_stored", ["C03", "C13"], "all() merges cache over disk",
+       "1 cached + 1 stored row", q=T(unwind=10, timeout=600), th=T(unwind=10, timeout=900)),
+    _t("T4.c", "t4_retrieve_cached", ["C01", "C13"], "retrieve_cache: a cached history is returned untouched",
+       "1 cached key", q=T(unwind=10), th=T(unwind=10)),
+    _t("T4.p", "t4_retrieve_persisted_history", ["C01", "C04", "C13"], "retrieve_cache: persisted history is loaded (decoded copy)",
+       "history of 2 Some versions", q=T(unwind=10, timeout=600), th=T(unwind=10, timeout=900)),
+    _t("T4.s", "t4_retrieve_seed_from_stored", ["C01", "C13"], "retrieve_cache: otherwise a fresh history seeded with the stored value at block 0",
+       "stored row present / absent", q=T(unwind=10), th=T(unwind=10)),
+    _t("T5.set", "t5_set_stamps_block", ["C01", "C13"], "set(b,k,v): latest=v and the recorded version is (b,v)",
+       "cached 1-version history, b0<=b<2^62", q=T(unwind=10, timeout=600), th=T(unwind=10, timeout=900)),
+    _t("T5.unset", "t5_unset_stamps_block", ["C01", "C13"], "unset(b,k): latest=None and the recorded version is (b,None)",
+       "cached 1-version history", q=T(unwind=10, timeout=600), th=T(unwind=10, timeout=900)),
+    _t("T5.stored", "t5_set_on_stored_key", ["C01", "C13"], "set on a key known only from its stored row keeps the old value at block 0",
+       "stored row, no history", q=T(unwind=10, timeout=600), th=T(unwind=10, timeout=900)),
+    _t("T6.ss", "t6_commit_ss", ["C03", "C04", "C13"], "commit: rows = (encoded history | dropped only if is_old, latest), cache empty, answer unchanged, history write precedes latest write",
+       "1 cached key, 2-version history shape SS, with/without older rows, all n", q=T(unwind=10, timeout=900), th=T(unwind=10, timeout=1500)),
+    _t("T6.ssf", "t6_commit_ss_fresh", ["C03", "C04", "C13"], "commit of a key that has no rows on disk yet",
+       "shape SS, no older rows", q=T(unwind=10, timeout=900), th=T(unwind=10, timeout=1500)),
+    _t("T6.sn", "t6_commit_sn", ["C03", "C04", "C13"], "commit (deleted key): latest row removed, history kept",
+       "shape SN", q=T(unwind=10, timeout=900), th=T(unwind=10, timeout=1500)),
+    _t("T6.ns", "t6_commit_ns", ["C03", "C04", "C13"], "commit (created key)", "shape NS",
+       q=T(unwind=10, timeout=900), th=T(unwind=10, timeout=1500)),
+    _t("T7.new", "t7_cut_new_key", ["C04", "C13"], "commit cut by a symbolic write budget p in {0,1,2}: Err iff p<2; disk pair never (old history, new latest)",
+       "new key", q=T(unwind=10, timeout=900), th=T(unwind=10, timeout=1500)),
+    _t("T7.ow", "t7_cut_overwrite", ["C04", "C13"], "commit cut: overwrite of a committed key", "old!=new",
+       q=T(unwind=10, timeout=900), th=T(unwind=10, timeout=1500)),
+    _t("T7.del", "t7_cut_delete", ["C04", "C13"], "commit cut: deletion of a committed key", "Some->None",
+       th=T(unwind=10, timeout=1500)),
+    _t("T7.nohist", "t7_cut_stored_without_history", ["C04", "C13"], "commit cut: key whose old history was dropped",
+       "latest row only", th=T(unwind=10, timeout=1500)),
+    _t("T8.p12", "t8_reorg_persisted_n12", ["C01", "C04", "C13"], "table reorg(12) visits a key that is only persisted ({5:v1,20:v2}): latest = v1, both rows rewritten, cache empty",
+       "concrete blocks 5/20 and target, symbolic values, concrete key", q=T(unwind=10, timeout=600), th=T(unwind=10, timeout=1200)),
+    _t("T8.p17", "t8_reorg_persisted_n17", ["C01", "C13"], "table reorg(17): as T8.p12, truncated history is older than the window and may be dropped",
+       "as T8.p12", th=T(unwind=10, timeout=1200)),
+    _t("T8.p25", "t8_reorg_persisted_n25", ["C01", "C13"], "table reorg(25): nothing above the target: rows unchanged", "as T8.p12",
+       q=T(unwind=10, timeout=600), th=T(unwind=10, timeout=1200)),
+    _t("T8.p35", "t8_reorg_persisted_n35", ["C01", "C13"], "table reorg(35): nothing to truncate, history older than the window", "as T8.p12",
+       th=T(unwind=10, timeout=1200)),
+    _t("T8.pc", "t8_reorg_persisted_created_later_n12", ["C01", "C04", "C13"], "table reorg below the creation block deletes the latest row",
+       "history {5:None,20:v2}", q=T(unwind=10, timeout=600), th=T(unwind=10, timeout=1200)),
+    _t("T8.pd", "t8_reorg_persisted_deleted_later_n12", ["C01", "C13"], "table reorg below the deletion block restores the latest row",
+       "history {5:v1,20:None}", th=T(unwind=10, timeout=1200)),
+    _t("T8.c12", "t8_reorg_cached_n12", ["C01", "C13"], "table reorg(12) of an uncommitted key (only in the cache)", "as T8.p12",
+       q=T(unwind=10, timeout=600), th=T(unwind=10, timeout=1200)),
+    _t("T8.cc", "t8_reorg_cached_created_later_n12", ["C01", "C13"], "table reorg(12) of an uncommitted key created at block 20: gone afterwards",
+       "history {5:None,20:v2} cached only", q=T(unwind=10, timeout=600), th=T(unwind=10, timeout=1200)),
+    _t("T8.b12", "t8_reorg_both_n12", ["C01", "C13"], "table reorg(12) of a key both cached and persisted", "as T8.p12",
+       th=T(unwind=10, timeout=1200)),
+    _t("T8.stale", "t8_reorg_stale_latest_n12", ["C04", "C13"], "reorg from a cut state (history already truncated, latest row stale) rewrites the latest row",
+       "history row {5:v1}, latest row v2 != v1, target 12", q=T(unwind=10, timeout=600), th=T(unwind=10, timeout=1200)),
+    _t("T8.stalec", "t8_reorg_stale_latest_created_n12", ["C04", "C13"], "reorg from a cut state of a key created at block 20 deletes the stale latest row",
+       "history row {5:None}, latest row v2, target 12", th=T(unwind=10, timeout=1200)),
 ]
 
 # properties whose check is registered in MANIFEST.json in this revision
